@@ -17,10 +17,10 @@ import (
 func init() { log.SetOutput(io.Discard) }
 
 const (
-	Msize   = 512
-	BufSize = 8 * Msize // the client's receive buffer
-	FidBase = 1000      // caller k issues its calls on fid FidBase+k; the call index is the offset
-	RdCount = 24
+	Msize      = 512
+	BufSize    = 8 * Msize // the client's receive buffer
+	FidBase    = 1000      // caller k issues its calls on fid FidBase+k; the call index is the offset
+	RdCount    = 24
 	UnknownTag = 0xF00D
 )
 
@@ -62,25 +62,25 @@ type Ctl struct {
 	K       int
 	NCalls  int
 	callers []*callerH
-	Res     []Result // per call id (index call-1); St "" = not returned
+	Res     []Result      // per call id (index call-1); St "" = not returned
 	Comp    map[int][]int // Tag callers: call ids in completion order
 
 	// peer state
-	fr       wire.Framer
-	Seen     []*PReq        // requests in arrival order
-	byCall   map[int]*PReq  // by call id
-	fromPeer []pframe       // frames not yet read by the client
-	sent     int            // bytes handed to the client's Read so far
-	peerGone bool
-	halfClosed bool // the peer ended its sending direction and stopped reading
-	wrFailed   bool // the client's writes fail; the peer neither reads nor sends any more (no EOF)
-	nfault   int
-	recvExited bool
+	fr           wire.Framer
+	Seen         []*PReq       // requests in arrival order
+	byCall       map[int]*PReq // by call id
+	fromPeer     []pframe      // frames not yet read by the client
+	sent         int           // bytes handed to the client's Read so far
+	peerGone     bool
+	halfClosed   bool // the peer ended its sending direction and stopped reading
+	wrFailed     bool // the client's writes fail; the peer neither reads nor sends any more (no EOF)
+	nfault       int
+	recvExited   bool
 	senderExited bool
 	doneClosed   bool
-	Notes    []string
-	TagsOut  map[uint16]int // tags of requests received by the peer and not answered -> call (non-Tag callers)
-	DupTag   []string
+	Notes        []string
+	TagsOut      map[uint16]int // tags of requests received by the peer and not answered -> call (non-Tag callers)
+	DupTag       []string
 }
 
 type pframe struct {
@@ -221,6 +221,11 @@ func (c *Ctl) Classify(rc *go9p.Fcall, err error) Result {
 		return Result{St: "ok", Pay: c.identToCall(id)}
 	}
 	if rc == nil {
+		if err == io.EOF {
+			// the library's own File helpers (Read, Readn, Readdir) take this very value for the end of the file and
+			// return success: a failed connection must not be reported with it
+			return Result{St: "weird", Detail: "the failure of the connection is reported as the bare io.EOF value, which File.Read/Readn/Readdir take for end of file (success without a reply)"}
+		}
 		return Result{St: "error", Detail: err.Error()}
 	}
 	e, _ := err.(*go9p.Error)
